@@ -65,6 +65,11 @@ structure AllSpec (n : Nat) : Prop where
     (run n).run s = (.ok v, s') →
     WF s' ∧ TExt s s' ∧ vok s'.fns.length v = true ∧ s'.data.map cellOf = b.data.map cellOf ∧ s'.linear = b.linear ∧
       s'.addr = b.addr ∧ s'.curfunc = b.cur ∧ s'.pc = -1 ∧ s'.suspended = s.suspended
+  nested : ∀ (f : Nat) (st : CtlState) (s s' : St) (v : Val), WF s → 2 ≤ f → f < s.fns.length →
+    (fnOf s f).params.length = 0 → s.pc = -2 → (nested n f st).run s = (.ok v, s') →
+    ∃ s2, s' = restoreSt st s2 ∧ WF s2 ∧ TExt s s2 ∧ vok s2.fns.length v = true ∧
+      s2.data.map cellOf = s.data.map cellOf ∧ s2.linear = s.linear ∧ s2.addr = s.addr ∧ s2.curfunc = s.curfunc ∧
+      s2.suspended = s.suspended
   eval : ∀ (e : Expr) (s s' : St) (v : Val), WF s → okL e = true → (evalCallExpr n e).run s = (.ok v, s') →
     Kept s s' ∧ vok s'.fns.length v = true
   prep : ∀ (f : Option FnObj) (i : Nat) (args : List Expr) (s s' : St), WF s → okLs args = true →
